@@ -44,7 +44,9 @@ def mods():
     return g
 
 
-FD_DTYPES = {"i8": np.int64, "i4": np.int32, "u1": np.uint8, "f8": np.float64}
+FD_DTYPES = {"i8": np.int64, "i4": np.int32, "u1": np.uint8, "f8": np.float64,
+             "u8": np.uint64, "u4": np.uint32, "u2": np.uint16, "i2": np.int16,
+             "f4": np.float32}
 TA_DTYPES = {"f8": np.float64, "f4": np.float32, "i8": np.int64, "u1": np.uint8,
              "i1": np.int8, "i2": np.int16, "u2": np.uint16}
 
@@ -74,6 +76,14 @@ def make_grids(codes, field, nodata, fd_dtype="i8", ta_dtype="f8", layout="C",
         fdt = np.int64
     if fd_dtype == "f8" and np.abs(codes).max() > 2 ** 53:
         fdt = np.int64
+    if fd_dtype in ("u8", "u4", "u2", "i2", "f4"):
+        if np.dtype(fdt).kind == "f":
+            if np.abs(codes).max() > 2 ** 24:
+                fdt = np.int64
+        else:
+            ii_ = np.iinfo(fdt)
+            if codes.min() < ii_.min or codes.max() > ii_.max:
+                fdt = np.int64
     if fd_nodata is not None and (fdt is np.float64 or float(fd_nodata) == int(fd_nodata)):
         fd = g.Grid("fd", nc, nr, dtype=fdt, nodata=fd_nodata if fdt is np.float64
                     else int(fd_nodata))
@@ -399,7 +409,8 @@ def run(ctx):
                 case = {"kind": "acc", "codes": codes.tolist(),
                         "field": None if f is None else f.tolist(), "nodata": nd,
                         "fieldname": nm,
-                        "fd_dtype": ["i8", "i4", "u1", "f8"][idx % 4],
+                        "fd_dtype": ["i8", "i4", "u1", "f8", "i8", "u8", "u4", "f8", "i8",
+                                     "u2", "i2", "f4"][idx % 12],
                         "ta_dtype": ["f8", "f4", "i8"][(idx // 4) % 3],
                         "layout": ["C", "F", "C", "T", "C", "S"][(idx // 3) % 6],
                         "bounded": (idx // 5) % 4 == 0}
